@@ -56,6 +56,9 @@ func runTx(h *wafHandle, s *TxScript) *Outcome {
 	var rec *recWriter
 	if itx, ok := tx.(*corazawaf.Transaction); ok && itx.WAF != nil {
 		rec, _ = itx.WAF.AuditLogWriter().(*recWriter)
+		if s.stampOut != nil {
+			*s.stampOut = itx.Timestamp
+		}
 	}
 	if h.Concurrent {
 		// pool exclusivity: the object must not be live in another task
